@@ -72,7 +72,13 @@ func (m *ConcurrentSwissMap[K, V]) Store(key K, value V) {
 	m.m[key] = value
 }
 
+// VerifOnStoreIf lets a harness observe conditional stores (which map object, which key).
+var VerifOnStoreIf func(m any, key any)
+
 func (m *ConcurrentSwissMap[K, V]) StoreIf(key K, conditionFn func(previousVale V, previousFound bool) (value V, set bool)) {
+	if VerifOnStoreIf != nil {
+		VerifOnStoreIf(m, key) // at method entry: the receiver has just been evaluated by the caller
+	}
 	vrt.Yield(-3)
 	p, f := m.m[key]
 	if v, set := conditionFn(p, f); set {
